@@ -583,10 +583,14 @@ static void on_release(void* p, size_t n, int kind)
 
 static int window_in(const octet* hay, size_t hn, const octet* nee, size_t nn)
 {
-	size_t i;
+	size_t i, q;
 	for (i = 0; i + 8 <= nn; ++i)
-		if (hn >= 8 && memmem(hay, hn, nee + i, 8))
+	{
+		/* 8 equal octets identify nothing (a block cleared with that constant would match) */
+		for (q = 1; q < 8 && nee[i + q] == nee[i]; ++q);
+		if (q < 8 && hn >= 8 && memmem(hay, hn, nee + i, 8))
 			return 1;
+	}
 	return 0;
 }
 
